@@ -299,6 +299,68 @@ let () =
         if ex <> "" && mex <> ex then mismatch "model" line ("ex=" ^ mex) ("ex=" ^ ex);
         let lsv = (try List.assoc "ls" sfx with Not_found -> "-") in
         if lsv <> "-" && lsv <> listing_text () then mismatch "model" line ("ls=" ^ listing_text ()) ("ls=" ^ lsv)
+      | "G" :: rest ->
+        (* registry sub-protocol: all interleavings of the model's registry steps for a program of the G1 harness
+           (harness/g1/c06): threads run acq (OReg ; RIncr) and lrel (DDereg ; DSnap ; DCas) on ONE instance *)
+        let get k = try List.assoc k (List.map kv rest) with Not_found -> failwith ("G line lacks " ^ k) in
+        let cap = int_of_string (get "cap") and prog = get "prog" in
+        let progs = Array.of_list (List.map (fun t -> split ',' t) (String.split_on_char '|' prog)) in
+        let nt = Array.length progs in
+        let c0 = { c_pat = Blackboard; c_vals = [n_of_int 8; n_of_int cap]; c_types = []; c_attrs = [] } in
+        let x0 = { i_cfg = c0; i_owner = O; i_st = SFinal; i_dy = DFinal; i_dy_linked = true; i_res = false;
+                   i_locked = false; i_gen = S O; i_members = [] } in
+        let g0 = { g_init with insts = [x0]; cur = Some O } in
+        let pr = { p_T = O; p_defs = (fun _ -> []); p_recheck = (try get "recheck" <> "0" with _ -> true) } in
+        let outcomes = Hashtbl.create 16 in
+        let idle l = (match l.at_pc with Idle -> true | _ -> false) in
+        let rec go depth (g : gst) (ls : lst array) (rem : string list array) (res : string list array) =
+          let moved = ref (depth > 40) in
+          if depth <= 40 then
+          for t = 0 to nt - 1 do
+            let l = ls.(t) in
+            (* load the next operation when the thread is between operations *)
+            let l, rem_t, skip =
+              if idle l then (match rem.(t) with
+                | [] -> (l, [], true)
+                | "acq" :: tl -> ({ l with at_pc = OReg (O, false); nreg = O; regi = None }, tl, false)
+                | "lrel" :: tl ->
+                  if int_of_nat l.nreg = 0 then (l, tl, true)      (* nothing held: the harness prints "-" *)
+                  else ({ l with at_pc = DDereg O; nreg = O; regi = None; handles = [] }, tl, false)
+                | o :: _ -> failwith ("G op " ^ o))
+              else (l, rem.(t), false) in
+            if skip && idle l && rem.(t) <> [] && rem_t <> rem.(t) then begin
+              (* a release without a held index *)
+              moved := true;
+              let rem' = Array.copy rem and res' = Array.copy res in
+              rem'.(t) <- rem_t; res'.(t) <- res.(t) @ ["-"];
+              go (depth + 1) g ls rem' res'
+            end else if not skip then begin
+              match step pr (nat_of_int t) g l with
+              | None -> ()
+              | Some ((g', l'), _) ->
+                moved := true;
+                let ls' = Array.copy ls and rem' = Array.copy rem and res' = Array.copy res in
+                rem'.(t) <- rem_t;
+                (* did the operation end with this step? *)
+                let fin = (match l'.at_pc with
+                  | Idle -> (match List.rev l'.rets with
+                      | ROk _ :: _ -> Some "ok" | RErr (_, IsMarkedForDestruction) :: _ -> Some "locked"
+                      | RErr (_, ExceedsMaxNumberOfNodes) :: _ -> Some "full" | RDropped :: _ -> Some "U" | _ -> Some "?")
+                  | DDyChmod _ -> Some "L"
+                  | _ -> None) in
+                (match fin with
+                 | Some r -> res'.(t) <- res.(t) @ [r];
+                   ls'.(t) <- { l' with at_pc = Idle; rets = [] }
+                 | None -> ls'.(t) <- l');
+                go (depth + 1) g' ls' rem' res'
+            end
+          done;
+          if not !moved then
+            Hashtbl.replace outcomes (String.concat "|" (Array.to_list (Array.map (String.concat ",") res))) ()
+        in
+        go 0 g0 (Array.make nt (l_init [])) (Array.copy progs) (Array.make nt []);
+        let l = List.sort compare (Hashtbl.fold (fun k () acc -> k :: acc) outcomes []) in
+        Printf.printf "GM cap=%d prog=%s outcomes=%s\n" cap prog (String.concat ";" l)
       | ("S" | "X" | "R" | "F") :: _ -> ()
       | [] -> ()
       | _ -> failwith ("unparsable line: " ^ line)
